@@ -80,7 +80,7 @@ def run(ctx):
         model = rng.choice(["lepton3", "boson", "lepton3.5"])
         conns, mev, fid, nclear = [], [], 1, 0
         for c in range(rng.choice([1, 2])):
-            conn, ev, fid = fam_e2e.build_conn(rng, settings, w, h, fps, model, fid, rng.randint(25, 80), with_clear=True,
+            conn, ev, fid = fam_e2e.build_conn(rng, settings, w, h, fps, model, fid, rng.randint(25, 80), with_clear=True, clear_runs=True,
                                                with_bad=(k % 2 == 1))
             conn["dbus"] = [dict(at_byte=10 ** 9, member="CameraInfo")]
             conns.append(conn)
@@ -143,8 +143,8 @@ def run(ctx):
             violations.append(dict(key=tg, replay=rp, what=json.dumps(e)[:300]))
     for v in fam_e2e.judge_c11(ctx, runs, binp):
         key = v["key"].replace("C11:settings-do-not-shape-files", "C14:frames-not-delivered-once-in-order").replace("C11:", "C14:")
-        if key.startswith("C14:e2e-"):
-            continue       # header content of files is C11's business
+        if key.startswith("C14:e2e-") or not key.startswith("C14:"):
+            continue       # header content of files is C11's business, bad-frame reporting C13's
         if key not in seen:
             seen.add(key)
             violations.append(dict(key=key, replay=v["replay"], what=v["what"]))
